@@ -33,14 +33,32 @@ MODELS = {}
 
 
 def _uf1(name, x, axioms=None):
+    """application of an uninterpreted function; the argument is first identified with an earlier argument
+    of the same function when the solver proves them equal (congruence needs provable, not syntactic,
+    equality of arguments -- nonlinear rearrangements of the same quantity are common)"""
     c = ctx()
-    e = S.uf(name, x)
-    key = (name, e.get_id())
-    if key not in c.uf_cache:
-        c.uf_cache[key] = True
-        if axioms:
-            for a in axioms(S.to_real(S.z(x)), e):
-                c.defs.append(a)
+    zx = S.to_real(S.z(x))
+    apps = c.uf_cache.setdefault(("apps", name, tuple(b.get_id() for b in c.bound_stack),
+                                  tuple(g.get_id() for gs in c.bound_guards for g in gs)), [])
+    for arg, app in apps:
+        if arg.eq(zx):
+            return Sym(app)
+    from .sigma import _prove_eq
+    for arg, app in apps:
+        if _prove_eq(c, arg, zx, [], timeout=1500):
+            apps.append((zx, app))
+            return Sym(app)
+    e = S.uf(name, zx)
+    if name == "exp":
+        # exp(a)*exp(-a) = 1 for every pair of applications with provably opposite arguments
+        for arg, app in apps:
+            if _prove_eq(c, arg, -zx, [], timeout=1500):
+                c.defs.append(e * app == 1)
+                break
+    apps.append((zx, e))
+    if axioms:
+        for a in axioms(zx, e):
+            c.defs.append(a)
     return Sym(e)
 
 
@@ -55,9 +73,13 @@ def _map(x, f):
 def log_scalar(x):
     if not isinstance(x, Sym):
         x = S.pynum(x)
+        if not ctx() or ctx().concrete:
+            if x != x or x < 0:
+                return float("nan")
+            return math.log(x) if x > 0 else float("-inf")
         if x <= 0:
             raise Unsupported("log of non-positive constant")
-        return math.log(x) if not ctx() or ctx().concrete else _uf1("log", x, _log_ax)
+        return _uf1("log", x, _log_ax)
     return _uf1("log", x, _log_ax)
 
 
@@ -92,7 +114,10 @@ def exp_scalar(x):
     if not isinstance(x, Sym):
         x = S.pynum(x)
         if not ctx() or ctx().concrete:
-            return math.exp(x)
+            try:
+                return math.exp(x)
+            except OverflowError:
+                return float("inf")
         if x == 0:
             return 1.0
     return _uf1("exp", x, _exp_ax)
@@ -139,9 +164,20 @@ def np_abs(x):
 
 
 MODELS["numpy.absolute"] = np_abs
-MODELS["numpy.pi"] = math.pi
+class ModeConst:
+    """a constant that is a symbol in proof mode and a float in the concrete cross-check (pi)"""
+
+    def __init__(self, symv, conc):
+        self.symv, self.conc = symv, conc
+
+    def get(self):
+        c = ctx()
+        return self.conc if (c is None or c.concrete) else self.symv
+
+
+MODELS["numpy.pi"] = ModeConst(Sym(S._PI), math.pi)
 MODELS["numpy.inf"] = math.inf
-MODELS["math.pi"] = math.pi
+MODELS["math.pi"] = MODELS["numpy.pi"]
 MODELS["numpy.float64"] = S  # placeholder replaced below
 MODELS["numpy.e"] = math.e
 
